@@ -4,6 +4,7 @@ import Props.C08
 import Proofs.DkgRounds
 import Proofs.DkgJoint
 import Proofs.DkgShare
+import Proofs.DkgAgree
 
 /-! # C07 — DKG: honest participants agree on the verdict and on consistent keys
 
@@ -12,9 +13,12 @@ Model-level theorems about what `End` returns (every crypto-operations record, e
 the network may reorder commute (`delivery_pair_commutes`), the state after a round does not depend on the
 delivery order (`round_order_independent`), and `End` returns the same verdict and keys for every delivery
 order of each round (`end_result_order_independent`); the same for Joint-Feldman, where the participant is also
-the dealer of one of the `n` parallel instances (`joint_end_order_independent`). What remains by correspondence
-only: the relation between *different* participants of one execution (their inputs differ by the private
-shares). -/
+the dealer of one of the `n` parallel instances (`joint_end_order_independent`). **Agreement between different
+participants** of one Feldman-VSS-Qual execution is `honest_receivers_agree` (`Proofs/DkgAgree.lean`): two honest
+participants that are not the dealer leave `End` with the same public result under reliable broadcast and round
+synchrony, for every behaviour of everybody else and every delivery order. What remains by correspondence only:
+lifting that theorem to the `n` parallel instances of Joint-Feldman (per instance it applies as it is when the
+dealer of the instance is not one of the two participants). -/
 
 namespace Props.C07
 open Model Model.Dkg
@@ -176,6 +180,49 @@ open Proofs.DkgCommute in
 theorem share_consistency_invariant (s : St O) (h : SC s) (e : Dl) : SC (Proofs.DkgCommute.step s e) ∧ SC (tstep s) :=
   ⟨sc_step s h e, sc_tstep s h⟩
 
+open Proofs.DkgCommute Proofs.DkgAgree in
+/-- **agreement between different honest participants** (Feldman-VSS-Qual, neither is the dealer): with reliable
+    broadcast and round synchrony — in each round every broadcast of a third participant, the dealer included,
+    reaches both, in the sender's order, and what each of the two broadcasts in a round is what the other receives
+    from it in that round (`Net`) — both leave `End` with the same public result: both fail, or both hold the same
+    group public key and the same vector of public key shares. Nothing is assumed about the dealer, the other
+    participants, the private messages, or the order in which either of the two is delivered the messages of a
+    round; their own broadcasts are the outputs of the state machine on what they received (`bR1`/`bR2`/`bR3`). -/
+theorem honest_receivers_agree (size threshold dealer ma mb : Nat) (hd : dealer < size) (hs : size ≤ 256)
+    (hma : ma < size) (hmb : mb < size) (hmad : ma ≠ dealer) (hmbd : mb ≠ dealer) (hab : ma ≠ mb)
+    (ra1 ra2 ra3 rb1 rb2 rb3 : List Dl)
+    (ba1 : ∀ e ∈ ra1, e.sender < size) (ba2 : ∀ e ∈ ra2, e.sender < size) (ba3 : ∀ e ∈ ra3, e.sender < size)
+    (bb1 : ∀ e ∈ rb1, e.sender < size) (bb2 : ∀ e ∈ rb2, e.sender < size) (bb3 : ∀ e ∈ rb3, e.sender < size)
+    (n1 : Net ma mb ra1 rb1 (bR1 (fresh O size threshold ma dealer) ra1) (bR1 (fresh O size threshold mb dealer) rb1))
+    (n2 : Net ma mb ra2 rb2 (bR2 (fresh O size threshold ma dealer) ra1 ra2) (bR2 (fresh O size threshold mb dealer) rb1 rb2))
+    (n3 : Net ma mb ra3 rb3 (bR3 (fresh O size threshold ma dealer) ra1 ra2 ra3)
+      (bR3 (fresh O size threshold mb dealer) rb1 rb2 rb3)) :
+    pubRes (final (fresh O size threshold ma dealer) ra1 ra2 ra3) =
+      pubRes (final (fresh O size threshold mb dealer) rb1 rb2 rb3) :=
+  agreement size threshold dealer ma mb hd hs hma hmb hmad hmbd hab ra1 ra2 ra3 rb1 rb2 rb3 ba1 ba2 ba3 bb1 bb2 bb3 n1 n2 n3
+
+open Proofs.DkgCommute Proofs.DkgAgree in
+/-- the public result is what `End` returns: a failure, or the public result together with the private share -/
+theorem end_result_is_public_result (s : St O) : endRes s =
+    match pubRes s with
+    | none => .failure
+    | some Yys => if s.x = 0 then .failure else .keys s.x Yys.1 Yys.2 := endRes_pubRes s
+
+open Proofs.DkgCommute Proofs.DkgAgree in
+/-- tie between the theorem's `bR` (what a participant broadcasts) and the handlers: the only broadcast an honest
+    participant other than the dealer ever makes is its complaint, made exactly when its own table entry gets
+    the `received` flag; this is what the other participant's stream from it consists of -/
+theorem broadcasts_are_the_complaint (a : St O) (hme : a.me ≠ a.dealer) (e : Dl) :
+    bcasts (stepOuts a e) = if ownRecv a then [] else if ownRecv (Proofs.DkgCommute.step a e) then [cmplMsg a.dealer] else [] :=
+  step_good a hme e
+
+open Proofs.DkgCommute Proofs.DkgAgree in
+/-- the simulation behind the agreement theorem: after any delivery, the public part of a participant's state is
+    that of the shadow observer that was given the same broadcast and the participant's complaint, if emitted -/
+theorem shadow_simulation {zme : Nat} {a : St O} {z : St (shadowOps O zme)} (ai : AInv a) (zi : ZInv z) (h : PubEq a z)
+    (e : Dl) (he : e.sender < a.size) : PubEq (Proofs.DkgCommute.step a e) (runList z (zEvents a e)) :=
+  (shadow_step ai zi h e he).1
+
 section NonVacuity
 open Proofs.DkgCommute
 
@@ -210,6 +257,42 @@ example : exec toyStart [.bcast 0 (tagVerifVec :: toyVec), .priv 0 toyBadShare] 
 example : exec toyStart [.bcast 0 (tagVerifVec :: toyVec), .priv 0 toyBadShare]
     [.bcast 0 (tagAnswer :: 1 :: 7 :: List.replicate 31 0)] [] = .failure := by decide +kernel
 
+open Proofs.DkgAgree in
+/-- non-vacuity of `honest_receivers_agree`: dealer 0 sends participant 1 a wrong share and participant 2 a right
+    one; 1 complains in round 1 (2 receives the complaint before the vector), the dealer answers in round 2; the
+    three `Net` hypotheses hold and both end with the same public keys -/
+def toyGoodShare2 : Bytes := tagShare :: 7 :: List.replicate 31 0
+def nvA1 : List Dl := [.bcast 0 (tagVerifVec :: toyVec), .priv 0 toyBadShare]
+def nvB1 : List Dl := [.priv 0 toyGoodShare2, .bcast 1 (Proofs.DkgAgree.cmplMsg 0), .bcast 0 (tagVerifVec :: toyVec)]
+def nvR2 : List Dl := [.bcast 0 toyAnswer]
+
+open Proofs.DkgAgree in
+theorem nv_stream (l1 l2 : List Dl) (h0 : stream l1 (0, false) = stream l2 (0, false))
+    (hn : ∀ n, stream l1 (n + 3, false) = stream l2 (n + 3, false)) :
+    ∀ o, o ≠ 1 → o ≠ 2 → stream l1 (o, false) = stream l2 (o, false) := by
+  intro o h1 h2
+  match o, h1, h2 with
+  | 0, _, _ => exact h0
+  | 1, h, _ => exact absurd rfl h
+  | 2, _, h => exact absurd rfl h
+  | n + 3, _, _ => exact hn n
+
+open Proofs.DkgAgree in
+example : pubRes (final (fresh toy 3 1 1 0) nvA1 nvR2 []) = some ([], []) ∧
+    pubRes (final (fresh toy 3 1 2 0) nvB1 nvR2 []) = some ([], []) ∧
+    Net 1 2 nvA1 nvB1 (bR1 (fresh toy 3 1 1 0) nvA1) (bR1 (fresh toy 3 1 2 0) nvB1) ∧
+    Net 1 2 nvR2 nvR2 (bR2 (fresh toy 3 1 1 0) nvA1 nvR2) (bR2 (fresh toy 3 1 2 0) nvB1 nvR2) ∧
+    Net 1 2 [] [] (bR3 (fresh toy 3 1 1 0) nvA1 nvR2 []) (bR3 (fresh toy 3 1 2 0) nvB1 nvR2 []) := by
+  have e1 : bR1 (fresh toy 3 1 1 0) nvA1 = [cmplMsg 0] := by decide +kernel
+  have e2 : bR1 (fresh toy 3 1 2 0) nvB1 = [] := by decide +kernel
+  have e3 : bR2 (fresh toy 3 1 1 0) nvA1 nvR2 = [] := by decide +kernel
+  have e4 : bR2 (fresh toy 3 1 2 0) nvB1 nvR2 = [] := by decide +kernel
+  have e5 : bR3 (fresh toy 3 1 1 0) nvA1 nvR2 [] = [] := by decide +kernel
+  have e6 : bR3 (fresh toy 3 1 2 0) nvB1 nvR2 [] = [] := by decide +kernel
+  rw [e1, e2, e3, e4, e5, e6]
+  refine ⟨by decide +kernel, by decide +kernel, ⟨nv_stream _ _ rfl (fun _ => rfl), rfl, rfl⟩,
+    ⟨nv_stream _ _ rfl (fun _ => rfl), rfl, rfl⟩, ⟨nv_stream _ _ rfl (fun _ => rfl), rfl, rfl⟩⟩
+
 end NonVacuity
 
 end Props.C07
@@ -227,3 +310,7 @@ end Props.C07
 #print axioms Props.C07.tie_joint
 #print axioms Props.C07.keys_match_public_data
 #print axioms Props.C07.share_consistency_invariant
+#print axioms Props.C07.honest_receivers_agree
+#print axioms Props.C07.end_result_is_public_result
+#print axioms Props.C07.broadcasts_are_the_complaint
+#print axioms Props.C07.shadow_simulation
